@@ -21,7 +21,7 @@ import (
 // to other tuples, so that the printed graph can be read back and compared by marker.
 func TestManyDefinitionsThroughAPI(t *testing.T) {
 	const test = "ManyDefinitionsThroughAPI"
-	hx.Rule(test, "n tuple definitions built through the metadata API, n drawn from {2..12, 60..70, 126..132, 250..260, 500..520}; each is unnumbered with a per-case probability from {1/50, 1/10, 1/3, 2/3} and otherwise explicitly numbered in dense runs with occasional gaps, in shuffled list order; each tuple holds a marker string and up to three references to other tuples (forward and backward). Printed module: IDs unique, explicit IDs kept, the k unnumbered definitions receive exactly the k smallest unused numbers, llvm-as accepts it, and after parsing it back every tuple (found by its marker) refers to the tuples with the expected markers. Non-trivial = at least 65 definitions with both kinds present")
+	hx.Rule(test, "n tuple definitions built through the metadata API, n drawn from {2..12, 60..70, 126..132, 250..260, 500..520}; each is unnumbered with a per-case probability from {1/50, 1/10, 1/3, 2/3} and otherwise explicitly numbered in dense runs with occasional gaps, in shuffled list order; each tuple holds a marker string and up to three references to other tuples (forward and backward). Printed module: IDs unique, explicit IDs kept, the k unnumbered definitions receive exactly the k smallest unused numbers, llvm-as accepts it, and after parsing it back every tuple (found by its marker) refers to the tuples with the expected markers. Then up to three unreferenced entries of the list (never the last) are replaced in place by new unnumbered definitions and the module is printed again: every listed definition is numbered, IDs are unique, LLVM and the parser accept the text and the graph is the same. Non-trivial = at least 65 definitions with both kinds present")
 	hx.Check(t, test, hx.N(120, 4000), func(rt *rapid.T) {
 		var n int
 		switch rapid.IntRange(0, 4).Draw(rt, "size") {
@@ -156,6 +156,81 @@ func TestManyDefinitionsThroughAPI(t *testing.T) {
 			if fmt.Sprint(got[fmt.Sprintf("n%d", i)]) != fmt.Sprint(wantRefs) {
 				hx.Fail(rt, test, "txt", c+"\n"+out, "tuple n%d refers to %v in the printed module, it was built with references to %v", i, got[fmt.Sprintf("n%d", i)], wantRefs)
 			}
+		}
+		// second phase: the list is edited after the print (entries that nothing refers to are replaced
+		// in place by new unnumbered definitions, never the last one) and the module is printed again
+		referred := map[int]bool{}
+		for _, rs := range refs {
+			for _, j := range rs {
+				referred[j] = true
+			}
+		}
+		pos := map[*metadata.Tuple]int{}
+		for li, d := range order {
+			pos[d] = li
+		}
+		edits := 0
+		for i, d := range defs {
+			li := pos[d]
+			if referred[i] || li == len(order)-1 || edits >= 3 || rapid.IntRange(0, 3).Draw(rt, "replace") != 0 {
+				continue
+			}
+			nd := &metadata.Tuple{MetadataID: -1}
+			nd.Fields = append(nd.Fields, &metadata.String{Value: fmt.Sprintf("n%d", i)})
+			nd.Fields = append(nd.Fields, d.Fields[1:]...)
+			m.MetadataDefs[li] = nd
+			all.Nodes[i] = nd
+			defs[i] = nd
+			edits++
+		}
+		if edits > 0 {
+			out2, p2 := lx.Print(m)
+			c2 := c + fmt.Sprintf("\nthen %d unreferenced entries of MetadataDefs replaced in place by unnumbered definitions, printed again", edits)
+			if p2 != nil {
+				hx.Fail(rt, test, "txt", c2, "the second print panics: %s", p2)
+			}
+			ids2, _ := defsOf(out2)
+			seen := map[int]bool{}
+			for _, id := range ids2 {
+				if seen[id] {
+					hx.Fail(rt, test, "txt", c2+"\n"+out2, "metadata ID !%d is defined twice after the edit", id)
+				}
+				seen[id] = true
+			}
+			if len(ids2) != n {
+				hx.Fail(rt, test, "txt", c2+"\n"+out2, "%d definitions are listed, the printed module numbers %d of them (an entry put into the list after a print got no number)", n, len(ids2))
+			}
+			if r := llvmx.Accept(out2); !r.OK && !r.Crashed {
+				hx.Fail(rt, test, "txt", c2+"\n"+out2, "LLVM rejects the module printed after the edit: %s", r.Err)
+			}
+			pm2, err2, pp2 := lx.Parse(out2)
+			if err2 != nil || pp2 != nil {
+				hx.Fail(rt, test, "txt", c2+"\n"+out2, "the module printed after the edit is not accepted by the parser: %v %v", err2, pp2)
+			}
+			got2 := map[string][]string{}
+			for _, d := range pm2.MetadataDefs {
+				tp, ok := d.(*metadata.Tuple)
+				if !ok {
+					continue
+				}
+				var rs []string
+				for _, f := range tp.Fields[1:] {
+					if fd, ok := f.(metadata.Definition); ok {
+						rs = append(rs, marker(fd))
+					}
+				}
+				got2[marker(d)] = rs
+			}
+			for i := range defs {
+				var wantRefs []string
+				for _, j := range refs[i] {
+					wantRefs = append(wantRefs, fmt.Sprintf("n%d", j))
+				}
+				if fmt.Sprint(got2[fmt.Sprintf("n%d", i)]) != fmt.Sprint(wantRefs) {
+					hx.Fail(rt, test, "txt", c2+"\n"+out2, "after the edit tuple n%d refers to %v, it was built with references to %v", i, got2[fmt.Sprintf("n%d", i)], wantRefs)
+				}
+			}
+			hx.Hist("edited_after_print")
 		}
 		if n >= 65 && unassigned > 0 && len(explicit) > 0 {
 			hx.NonTrivial(c)
